@@ -1,6 +1,9 @@
 """C13 -- solution cost accounting matches the DCOP definition."""
 import itertools
 import math
+import os
+import shutil
+import tempfile
 
 from harness import coqio as q
 
@@ -17,7 +20,9 @@ OBLIGATIONS = [
 N_QUICK, N_THOROUGH = 450, 8000
 RULE = ("seeded random DCOPs: 1-5 variables (plain, cost dict, cost function, cost expression) over an "
         "int domain of 2-3 values, 0-2 external variables, 0-5 constraints of arity 0-3 (matrix, "
-        "python function, expression) with total cost tables holding small ints, the finite "
+        "python function, expression, function in an external source file) written with the same / "
+        "re-created / cloned variable objects, matrices from lists or from a numpy buffer overwritten "
+        "afterwards, a later-loaded source file redefining the same function names; total cost tables holding small ints, the finite "
         "'infinity' 10000, inf, and rarely -inf / nan; infinity in {inf, 10000, 0, -inf}; "
         "assignments complete / one variable missing / one extra key / one missing AND one extra / "
         "external variable given with another value / None for a variable outside every scope; "
@@ -109,7 +114,8 @@ def gen(rng, n, tier):
         vs = rng.sample(VARS, rng.randint(1, 5))
         variables = []
         for v in vs:
-            kind = rng.choice(["plain", "plain", "dict", "func", "expr"])
+            kind = rng.choice(["plain", "plain", "dict", "func", "expr"] if mode != "acost"
+                              else ["plain", "dict", "dict", "func", "expr"])
             if kind == "plain":
                 costs = []
             elif kind == "dict":
@@ -123,16 +129,22 @@ def gen(rng, n, tier):
                 exts.append(dict(name=e, value=rng.choice(dom)))
         allv = vs + [e["name"] for e in exts]
         rels = []
-        for cn in rng.sample(RELS, rng.randint(0, 5)):
+        for cn in rng.sample(RELS, rng.randint(0, 5) if mode != "acost" else rng.randint(1, 5)):
             ar = min(rng.choice([0, 1, 1, 2, 2, 2, 3]), len(allv))
             scope = rng.sample(allv, ar)
-            kind = rng.choice(["matrix", "func", "expr"]) if ar else "matrix"
+            # "source": intention constraint `source.f(x, y)` whose function lives in an external file
+            kind = rng.choice(["matrix", "matrix", "func", "expr", "source"]) if ar else "matrix"
             table = [[list(t), _cost(rng)] for t in itertools.product(dom, repeat=ar)]
             rels.append(dict(name=cn, scope=scope, kind=kind, table=table))
         scoped = set(x for r in rels for x in r["scope"])
         asg = [[v, rng.choice(dom)] for v in vs]
         rng.shuffle(asg)
         c = dict(mode=mode, dom=dom, vars=variables, exts=exts, rels=rels, infinity=rng.choice(INFS))
+        # how constraints refer to their variables (same object / equal object created again / clone()),
+        # and where a matrix constraint's numbers come from (list, or a numpy buffer that the caller
+        # overwrites after the constraint was built)
+        c["inst"] = rng.choice(["shared", "fresh", "fresh", "clone"])
+        c["matrix_buf"] = rng.choice(["list", "refilled", "refilled"])
         # the signatures take iterables: hand the constraints (and the variables, which must be
         # sized and re-iterable) over as different kinds of iterable, one-shot ones included
         if mode != "dcop":
@@ -225,34 +237,64 @@ def _build(case):
                                      ExternalVariable)
     from pydcop.dcop.relations import NAryMatrixRelation, NAryFunctionRelation, constraint_from_str
     from pydcop.utils.expressionfunction import ExpressionFunction
+    from pydcop.dcop.relations import constraint_from_external_definition
     dom = case["dom"]
     d = Domain("d", "", list(dom))
-    objs = {}
-    for v in case["vars"] + case.get("hidden", []):
+
+    def make_var(v):
         tbl = {k: _f(c) for k, c in v["costs"]}
         if v["kind"] == "plain":
-            o = Variable(v["name"], d)
-        elif v["kind"] == "dict":
-            o = VariableWithCostDict(v["name"], d, dict(tbl))
-        elif v["kind"] == "func":
-            o = VariableWithCostFunc(v["name"], d, (lambda t: (lambda val: t[val]))(tbl))
-        else:
-            expr = "{%s}[%s]" % (", ".join("%r: %s" % (k, _lit(c)) for k, c in v["costs"]), v["name"])
-            o = VariableWithCostFunc(v["name"], d, ExpressionFunction(expr))
-        objs[v["name"]] = o
+            return Variable(v["name"], d)
+        if v["kind"] == "dict":
+            return VariableWithCostDict(v["name"], d, dict(tbl))
+        if v["kind"] == "func":
+            return VariableWithCostFunc(v["name"], d, (lambda t: (lambda val: t[val]))(tbl))
+        expr = "{%s}[%s]" % (", ".join("%r: %s" % (k, _lit(c)) for k, c in v["costs"]), v["name"])
+        return VariableWithCostFunc(v["name"], d, ExpressionFunction(expr))
+    objs = {}
+    defs = {}
+    for v in case["vars"] + case.get("hidden", []):
+        objs[v["name"]] = make_var(v)
+        defs[v["name"]] = v
     exts = {}
     for e in case["exts"]:
         exts[e["name"]] = ExternalVariable(e["name"], d, e["value"])
     pool = dict(objs); pool.update(exts)
+    inst = case.get("inst", "shared")
+
+    def use(n):
+        """the variable object a constraint is written with"""
+        if inst == "clone":
+            return pool[n].clone()
+        if inst == "fresh":
+            if n in defs:
+                return make_var(defs[n])
+            return ExternalVariable(n, d, pool[n].value)
+        return pool[n]
     rels = []
+    sources = []       # (function name, arity) defined in the external source file of this case
     for r in case["rels"]:
-        svars = [pool[n] for n in r["scope"]]
+        svars = [use(n) for n in r["scope"]]
         tbl = {tuple(k): _f(c) for k, c in r["table"]}
         if r["kind"] == "matrix":
             m = np.zeros([len(dom)] * len(svars), dtype=float)
             for k, c in tbl.items():
                 m[tuple(dom.index(x) for x in k)] = c
-            o = NAryMatrixRelation(svars, m, name=r["name"])
+            buf = case.get("matrix_buf", "keep")
+            o = NAryMatrixRelation(svars, m.tolist() if buf == "list" else m, name=r["name"])
+            if buf == "refilled":
+                m[...] = 4242.0          # the caller reuses its scratch buffer
+        elif r["kind"] == "source":
+            tmpdir = case["__tmp__"]
+            path = os.path.join(tmpdir, "defs_%s.py" % r["name"])
+            with open(path, "w") as f:
+                f.write("def f_%s(%s):\n    return {%s}[(%s,)]\n" % (
+                    r["name"], ", ".join(r["scope"]),
+                    ", ".join("%r: %s" % (tuple(k), _lit(c)) for k, c in r["table"]),
+                    ", ".join(r["scope"])))
+            o = constraint_from_external_definition(
+                r["name"], path, "source.f_%s(%s)" % (r["name"], ", ".join(r["scope"])), svars)
+            sources.append((r["name"], list(r["scope"])))
         elif r["kind"] == "func":
             o = NAryFunctionRelation((lambda t, sc: (lambda **kw: t[tuple(kw[n] for n in sc)]))(tbl, list(r["scope"])),
                                      svars, name=r["name"], f_kwargs=True)
@@ -261,6 +303,15 @@ def _build(case):
                                     ", ".join(r["scope"]))
             o = constraint_from_str(r["name"], expr, svars)
         rels.append(o)
+    # another problem loaded later in the same process: its source file defines functions of the
+    # same names with other costs; it must not change the constraints built above
+    for name, scope in sources:
+        path = os.path.join(case["__tmp__"], "other_%s.py" % name)
+        with open(path, "w") as f:
+            f.write("def f_%s(%s):\n    return 777\n" % (name, ", ".join(scope)))
+        other = ExpressionFunction("source.f_%s(%s)" % (name, ", ".join(scope)), path)
+        if other(**{n: dom[0] for n in scope}) != 777:
+            raise AssertionError("decoy source function not loaded")
     return objs, exts, rels
 
 
@@ -271,6 +322,20 @@ def _err(e):
 
 
 def run_impl(case):
+    case = dict(case)
+    tmp = None
+    if any(r["kind"] == "source" for r in case["rels"]):
+        os.makedirs("/verif/.work", exist_ok=True)
+        tmp = tempfile.mkdtemp(prefix="c13src_", dir="/verif/.work")
+        case["__tmp__"] = tmp
+    try:
+        return _run_impl(case)
+    finally:
+        if tmp:
+            shutil.rmtree(tmp, ignore_errors=True)
+
+
+def _run_impl(case):
     from pydcop.dcop.dcop import DCOP, solution_cost
     from pydcop.dcop.relations import assignment_cost
     objs, exts, rels = _build(case)
@@ -452,6 +517,7 @@ def histogram(cases, obs):
     for c, o in zip(cases, obs):
         for k in ("mode=" + c["mode"], "shape=" + c["shape"], "infinity=%s" % c["infinity"],
                   "objective=" + c.get("objective", "-"), "rels_as=" + c.get("rels_as", "-"),
+                  "inst=" + c.get("inst", "shared"), "matrix_buf=" + c.get("matrix_buf", "keep"),
                   "outcome=" + (o.get("error", "ok") if isinstance(o, dict) else "?")):
             h[k] = h.get(k, 0) + 1
     return h
